@@ -1,5 +1,6 @@
 import HgVerif.Model.Sched
 import HgVerif.Model.NodeSched
+import HgVerif.Model.Lifecycle
 /-
 Executable model of the engine over the harness vocabulary of `harness/drv_engine.cpp`
 (all ports `TS[int]`): node start/evaluate/stop (`node.cpp`), output write → notification →
@@ -11,7 +12,7 @@ Core Lean only.
 -/
 namespace HgVerif.Engine
 open HgVerif.Sched
-open HgVerif.NodeSched hiding Time
+open HgVerif.NodeSched (NS Tag nextScheduledTime isScheduled isScheduledNow schedule unscheduleTag unscheduleFirst popTag reset advance)
 
 inductive Port where | main | err | bundle
 deriving Repr, DecidableEq
@@ -214,6 +215,14 @@ def hasScheduler : Kind → Bool
   | .src _ | .script _ | .probe => true
   | _ => false
 
+def isNestedKind : Kind → Bool
+  | .nested _ _ _ => true
+  | _ => false
+
+/-- the readiness gate of `node.cpp evaluate_impl`: nested nodes validate inside the child, a node
+    without inputs always runs, otherwise `ready_to_evaluate` -/
+def runsUserCode (s : St) (cn : CNode) : Bool := isNestedKind cn.kind || cn.ins.isEmpty || ready s cn
+
 def faultDue (p : CProg) (id : Nat) (phase : Char) (count : Nat) : Bool :=
   ((lookup p.faults id).getD []).any (fun f => f.1 == phase && f.2 == count)
 
@@ -353,8 +362,7 @@ def nodeEvaluate (p : CProg) : Nat → Nat → Nat → Time → St → EvalRes S
       { st := s3, reqs := reqs, ok := ok }
     if !n.started then fin s0 true else
     let schedNow := hasScheduler cn.kind && isScheduledNow n.ns t
-    let isNested := match cn.kind with | .nested _ _ _ => true | _ => false
-    let doEval := isNested || cn.ins.isEmpty || ready s0 cn
+    let doEval := runsUserCode s0 cn
     let u : UserRes := if doEval then userEval p fuel inst idx t s0 else { st := s0 }
     -- error capture (`captures_errors`): the error ticks, the failure is absorbed
     let u : UserRes :=
@@ -482,22 +490,7 @@ def nodeStop (p : CProg) : Nat → Nat → Nat → Time → St → UserRes
       { st := markStopped r.st, ok := r.ok, msg := r.msg }
     | _ => { st := markStopped s }
 
-/-- reverse stop of nodes `[0, k)` with first-exception recording (`stop_impl` loop and the start
-    rollback share it) -/
-def stopNodes (p : CProg) : Nat → Nat → Nat → Time → St → Option String → St × Option String
-  | 0, _, _, _, s, e => (s, e)
-  | _, _, 0, _, s, e => (s, e)
-  | fuel + 1, inst, k + 1, t, s, e =>
-    let lbl := p.label inst k
-    let s0 := s.logf s!"nx+ {lbl}"
-    let r := nodeStop p fuel inst k t s0
-    let s1 := if r.ok then r.st.logf s!"nx= {lbl}" else (r.st.logf s!"nx! {lbl}").logf s!"nx= {lbl}"
-    let e' := match e with
-      | some m => some m
-      | none => if r.ok then none else some r.msg
-    stopNodes p (fuel + 1) inst k t s1 e'
-
-/-- graph `start_impl` -/
+/-- graph `start_impl`: `Lifecycle.graphStart` over this graph's nodes (start loop, rollback) -/
 def graphStart (p : CProg) : Nat → Nat → Time → St → UserRes
   | 0, _, _, s => { st := s }
   | fuel + 1, inst, t, s =>
@@ -507,28 +500,27 @@ def graphStart (p : CProg) : Nat → Nat → Time → St → UserRes
     let s0 := s.logf s!"gs+ {path}@{I.g.now}"
     let s1 := s0.setInst inst { I with g := { I.g with now := t } }
     let n := (p.inst inst).nodes.length
-    let rec loop : Nat → Nat → St → (St × Nat × Option String)
-      | 0, i, st => (st, i, none)
-      | rem + 1, i, st =>
-        let lbl := p.label inst i
-        let st0 := st.logf s!"ns+ {lbl}"
-        let r := nodeStart p fuel inst i t st0
-        if r.ok then loop rem (i + 1) (r.st.logf s!"ns= {lbl}")
-        else (r.st.logf s!"ns! {lbl}", i, some r.msg)
-    let (s2, startedN, err) := loop n 0 s1
-    match err with
+    let startStep (i : Nat) (st : St) : Lifecycle.StepRes St :=
+      let lbl := p.label inst i
+      let r := nodeStart p fuel inst i t (st.logf s!"ns+ {lbl}")
+      if r.ok then { st := r.st.logf s!"ns= {lbl}" } else { st := r.st.logf s!"ns! {lbl}", err := some r.msg }
+    let stopStep (k : Nat) (st : St) : Lifecycle.StepRes St :=
+      let lbl := p.label inst k
+      let r := nodeStop p fuel inst k t (st.logf s!"nx+ {lbl}")
+      if r.ok then { st := r.st.logf s!"nx= {lbl}" }
+      else { st := (r.st.logf s!"nx! {lbl}").logf s!"nx= {lbl}", err := some r.msg }
+    let r := Lifecycle.graphStart startStep stopStep n s1
+    match r.err with
     | some m =>
-      -- rollback: stop what did start, in reverse; exceptions from those stops are swallowed
-      let (s3, _) := stopNodes p (fuel + 1) inst startedN t s2 none
-      let I3 := s3.inst inst
-      let s4 := s3.setInst inst { I3 with g := { I3.g with next := none }, started := false }
+      let I3 := r.st.inst inst
+      let s4 := r.st.setInst inst { I3 with g := { I3.g with next := none }, started := false }
       { st := s4.logf s!"gs! {path}@{t}", ok := false, msg := m }
     | none =>
-      let I3 := s2.inst inst
-      let s4 := s2.setInst inst { I3 with g := startFold I3.g, started := true }
+      let I3 := r.st.inst inst
+      let s4 := r.st.setInst inst { I3 with g := startFold I3.g, started := true }
       { st := s4.logf s!"gs= {path}@{t}" }
 
-/-- graph `stop_impl` (stop time = the graph's evaluation time) -/
+/-- graph `stop_impl` (stop time = the graph's evaluation time): `Lifecycle.stopLoop` over all nodes -/
 def graphStop (p : CProg) : Nat → Nat → Time → St → UserRes
   | 0, _, _, s => { st := s }
   | fuel + 1, inst, _t, s =>
@@ -538,10 +530,15 @@ def graphStop (p : CProg) : Nat → Nat → Time → St → UserRes
     let t := I.g.now
     let s0 := s.logf s!"gx+ {path}@{t}"
     let n := (p.inst inst).nodes.length
-    let (s1, err) := stopNodes p (fuel + 1) inst n t s0 none
-    let I1 := s1.inst inst
-    let s2 := s1.setInst inst { I1 with started := false }
-    match err with
+    let stopStep (k : Nat) (st : St) : Lifecycle.StepRes St :=
+      let lbl := p.label inst k
+      let r := nodeStop p fuel inst k t (st.logf s!"nx+ {lbl}")
+      if r.ok then { st := r.st.logf s!"nx= {lbl}" }
+      else { st := (r.st.logf s!"nx! {lbl}").logf s!"nx= {lbl}", err := some r.msg }
+    let x := Lifecycle.stopLoop stopStep n s0 [] none
+    let I1 := x.st.inst inst
+    let s2 := x.st.setInst inst { I1 with started := false }
+    match x.err with
     | some m => { st := (s2.logf s!"gx! {path}@{t}").logf s!"gx= {path}@{t}", ok := false, msg := m }
     | none => { st := s2.logf s!"gx= {path}@{t}" }
 
